@@ -126,6 +126,20 @@ class ExactModel(gpytorch.models.ExactGP):
         return gpytorch.distributions.MultivariateNormal(self.mean_module(x), self.covar_module(x))
 
 
+class PriorsModel(gpytorch.models.ExactGP):
+    """kernels whose priors are registered with closures of their own (period length, variance, offset, constant)"""
+    def __init__(self, x, y, lik, variant):
+        super().__init__(x, y, lik)
+        v = float(variant)
+        self.mean_module = gpytorch.means.ConstantMean()
+        # (no LinearKernel: its low-rank root sends the exact solve through add_low_rank / an SVD, which has no rational contract)
+        self.covar_module = (K.RBFKernel() * K.ConstantKernel(constant_prior=P.LogNormalPrior(0.2 + v, 0.7 + v))
+                             + K.PolynomialKernel(2, offset_prior=P.NormalPrior(1.0 + v, 0.5 + v)))
+
+    def forward(self, x):
+        return gpytorch.distributions.MultivariateNormal(self.mean_module(x), self.covar_module(x))
+
+
 class SGPRModel(gpytorch.models.ExactGP):
     def __init__(self, x, y, lik, Z):
         super().__init__(x, y, lik)
@@ -245,7 +259,7 @@ def _symbolize(S, module, prefix):
         # torch.distributions keep derived attributes of transformed priors in sync through tensor identity; values stay linked
 
 
-EXACT_KINDS = ("exact", "sgpr", "kiss", "rff", "hadamard")
+EXACT_KINDS = ("exact", "sgpr", "kiss", "rff", "hadamard", "priors")
 VAR_KINDS = ("var", "var2")
 
 
@@ -315,6 +329,8 @@ def _build(S, kind, variant, x, y, Z):
     lik = _lik(variant)
     if kind == "exact":
         m = ExactModel(x, y, lik, variant)
+    elif kind == "priors":
+        m = PriorsModel(x, y, lik, variant)
     elif kind == "sgpr":
         m = SGPRModel(x, y, lik, Z + 0.1 * variant)
     elif kind == "kiss":
@@ -335,7 +351,7 @@ def _build(S, kind, variant, x, y, Z):
 
 
 def roundtrip(S, kind, mechanism, savepoint):
-    CTX.sweep_timeout = 400  # original and restored model run the same code: merges are syntactic or cheap; keep misses cheap too
+    CTX.sweep_timeout = 2500  # original and restored model run the same code: merges are syntactic or cheap; keep misses cheap too
     n, m_, d = 2, 1, 1
     sc = 0.4 if kind == "kiss" else 0.8  # KISS-GP: inputs inside the grid bounds of both variants
     x = S.randn(n, d, scale=sc); S.sym_tensor(x, "x")
@@ -415,7 +431,7 @@ def roundtrip(S, kind, mechanism, savepoint):
             global STORAGES
             index = value_index()
             STORAGES = storage_index()
-            blob = pickle.dumps((orig, lik))
+            blob = S.must_not_raise("pickling a %s model" % kind, lambda: pickle.dumps((orig, lik)), any_origin=True)
             rest, rlik = pickle.loads(blob)
             relabel((rest, rlik), index)
         elif mechanism == "deepcopy":
@@ -443,6 +459,72 @@ def roundtrip(S, kind, mechanism, savepoint):
     for kname in sd_o:
         if isinstance(sd_o[kname], torch.Tensor) and sd_o[kname].shape == sd_r[kname].shape:
             S.check_concrete(bool(torch.equal(sd_o[kname], sd_r[kname])), "state_dict[%s] bit-identical" % kname)
+
+
+PRIOR_MODULES = {
+    "periodic": lambda: K.PeriodicKernel(period_length_prior=P.GammaPrior(2.0, 3.0)),
+    "cosine": lambda: K.CosineKernel(period_length_prior=P.GammaPrior(2.0, 3.0)),
+    "linear": lambda: K.LinearKernel(variance_prior=P.GammaPrior(2.0, 3.0)),
+    "polynomial": lambda: K.PolynomialKernel(2, offset_prior=P.GammaPrior(2.0, 3.0)),
+    "constant": lambda: K.ConstantKernel(constant_prior=P.GammaPrior(2.0, 3.0)),
+    "arc": lambda: K.ArcKernel(K.RBFKernel(), angle_prior=P.UniformPrior(0.05, 1.5), radius_prior=P.GammaPrior(2.0, 3.0)),
+    "cylindrical": lambda: K.CylindricalKernel(2, K.RBFKernel(), angular_weights_prior=P.GammaPrior(2.0, 3.0), alpha_prior=P.GammaPrior(2.0, 3.0),
+                                               beta_prior=P.GammaPrior(2.0, 3.0)),
+    "index": lambda: K.IndexKernel(num_tasks=2, rank=1, prior=P.NormalPrior(0.3, 1.1)),
+    "scale": lambda: K.ScaleKernel(K.RBFKernel(lengthscale_prior=P.GammaPrior(2.0, 3.0)), outputscale_prior=P.GammaPrior(2.0, 3.0)),
+    "student_t": lambda: gpytorch.likelihoods.StudentTLikelihood(noise_prior=P.GammaPrior(2.0, 3.0), deg_free_prior=P.GammaPrior(9.0, 2.0)),
+    "laplace": lambda: gpytorch.likelihoods.LaplaceLikelihood(noise_prior=P.GammaPrior(2.0, 3.0)),
+    "beta": lambda: gpytorch.likelihoods.BetaLikelihood(scale_prior=P.GammaPrior(2.0, 3.0)),
+    "multitask_rank0": lambda: gpytorch.likelihoods.MultitaskGaussianLikelihood(num_tasks=2, rank=0, noise_prior=P.GammaPrior(2.0, 3.0)),
+    "multitask_rank1": lambda: gpytorch.likelihoods.MultitaskGaussianLikelihood(num_tasks=2, rank=1, task_prior=P.NormalPrior(0.3, 1.1),
+                                                                               noise_prior=P.GammaPrior(2.0, 3.0)),
+}
+
+
+def prior_closures(S, cls):
+    """every module class that registers a prior with closures of its own: pickle / deepcopy carry the prior AND its closures (the
+       restored module evaluates the same log prior density of the same constrained value), and sample_from_prior stores what it drew"""
+    m = PRIOR_MODULES[cls]()
+    for p in m.parameters():
+        p.requires_grad_(False)
+    _symbolize(S, m, "o_")
+    with S.mode():
+        want = {}
+        for nm, mod, prior, clo, _ in m.named_priors():
+            want[nm] = as_sym_arr(SH.get(prior.log_prob(clo(mod)))).copy()
+        global STORAGES
+        index = value_index()
+        STORAGES = storage_index()
+        blob = S.must_not_raise("pickling a %s module with registered priors" % cls, lambda: pickle.dumps(m), any_origin=True)
+        rest = pickle.loads(blob)
+        relabel(rest, index)
+        dc = S.must_not_raise("deep-copying a %s module with registered priors" % cls, lambda: copy.deepcopy(m), any_origin=True)
+        for how, r in (("pickle", rest), ("deepcopy", dc)):
+            got = {nm: as_sym_arr(SH.get(prior.log_prob(clo(mod)))) for nm, mod, prior, clo, _ in r.named_priors()}
+            S.check_concrete(set(got) == set(want), "%s keeps the registered priors" % how, "%s vs %s" % (sorted(got), sorted(want)))
+            for nm in want:
+                if nm in got:
+                    S.prove_eq(got[nm], want[nm], "%s via %s: log prior density '%s' identical to the original's" % (cls, how, nm))
+    # sample_from_prior on the restored module: the drawn value is what the parameter then reads (concrete draws)
+    for nm, mod, prior, clo, setclo in rest.named_priors():
+        if setclo is None:
+            continue
+        short = nm.split(".")[-1]
+        ok, detail = True, ""
+        try:
+            torch.manual_seed(11)
+            drawn = prior.sample()
+            torch.manual_seed(11)
+            mod.sample_from_prior(short)
+            back = clo(mod)
+            ok = bool(torch.allclose(back, drawn.to(back).expand(back.shape) if drawn.numel() == 1 or drawn.shape != back.shape else drawn.to(back), rtol=1e-6, atol=1e-9))
+            detail = "read back %s, drew %s" % (back.flatten()[:3].tolist(), drawn.flatten()[:3].tolist())
+        except RuntimeError as e:
+            if "out of bounds" not in str(e):  # a draw outside the parameter's constraint is rejected by design
+                ok, detail = False, "%s: %s" % (type(e).__name__, e)
+        except Exception as e:
+            ok, detail = False, "%s: %s" % (type(e).__name__, e)
+        S.check_concrete(ok, "%s: sample_from_prior('%s') on the restored module stores the drawn value" % (cls, short), detail)
 
 
 def deepcopy_live(S, kind):
@@ -531,21 +613,29 @@ def scenarios(tier, seed):
                   ("sgpr", "state_dict", "predicted"), ("sgpr", "state_dict_into_used", "predicted"), ("sgpr", "pickle", "switched"), ("sgpr", "deepcopy", "predicted"),
                   ("var", "state_dict", "constructed"), ("var", "state_dict_into_used", "predicted"), ("var", "pickle", "predicted"), ("var", "deepcopy", "training"),
                   ("var", "state_dict_into_training", "training")]
-        combos += [("kiss", "state_dict", "predicted"), ("kiss", "pickle", "constructed"), ("rff", "state_dict", "constructed"), ("rff", "deepcopy", "predicted"),
+        combos += [("priors", "state_dict", "constructed"),
+                   ("kiss", "state_dict", "predicted"), ("kiss", "pickle", "constructed"), ("rff", "state_dict", "constructed"), ("rff", "deepcopy", "predicted"),
                    ("hadamard", "state_dict", "predicted"), ("hadamard", "pickle", "switched"), ("var2", "state_dict", "constructed"), ("var2", "pickle", "predicted")]
         for k, mth, sp in combos:
             add("roundtrip", kind=k, mechanism=mth, savepoint=sp)
         add("model_list", mechanism="state_dict")
         add("model_list", mechanism="pickle")
+        for cls in PRIOR_MODULES:
+            add("prior_closures", cls=cls)
         for kind in ("kiss_real", "exact"):
             add("deepcopy_live", kind=kind)
     else:
-        for k in ("exact", "sgpr", "var", "kiss", "rff", "hadamard", "var2"):
+        for k in ("exact", "sgpr", "var", "kiss", "rff", "hadamard", "var2", "priors"):
             for mth in mechs:
                 for sp in saves:
+                    if k == "priors" and not mth.startswith("state_dict"):
+                        continue  # pickle / deepcopy of the prior-carrying classes: prior_closures (the full-model terms over relabelled
+                        # prior buffers are not decided in time)
                     add("roundtrip", kind=k, mechanism=mth, savepoint=sp)
         for mth in ("state_dict", "pickle", "deepcopy"):
             add("model_list", mechanism=mth)
+        for cls in PRIOR_MODULES:
+            add("prior_closures", cls=cls)
         for kind in ("kiss_real", "sgpr", "exact"):
             add("deepcopy_live", kind=kind)
     return out
